@@ -147,6 +147,28 @@ theorem COUNTIF_app (ext : Ext) (rows : List (List S)) (s : List Char) (n : Int)
   simp [wrapX, fCOUNTIF, bindArgs, itemOfV, pyOfS, validateAllX, validateParamX, validateParam, annotScalar?,
     castScalar, castFromNative, Py.typed?, XR.ofR, XR.map, XR.bind, hbody, h, ofC15, retCast, pyToS, toNumber, ofXR, vNum]
 
+/-! ### lookup: VLOOKUP(key, table, col) -/
+
+def fVLOOKUP : Gen.Func := ⟨"VLOOKUP".toList, "lookup".toList, true,
+  [⟨"lookup_value".toList, false, .xlAnything, false⟩, ⟨"table_array".toList, false, .xlArray, false⟩,
+   ⟨"col_index_num".toList, false, .xlNumber, false⟩, ⟨"range_lookup".toList, false, .none, true⟩], .xlAnything⟩
+
+theorem VLOOKUP_app (ext : Ext) (key : S) (hkey : ∀ e, key ≠ .err e) (rows : List (List S)) (c : Int) (v : S)
+    (h : Model.C15.VLOOKUP key rows (.int c) false = .ok v) :
+    (libSemOf ext).app (idOf "VLOOKUP") [.s key, .arr rows, .s (.num (.int c))] = .val (.s v) := by
+  simp only [libSemOf]
+  obtain ⟨body, hb⟩ : ∃ body, bodyOf ext "VLOOKUP" = some body := ⟨_, rfl⟩
+  have hbody : body [.s key, .a rows, .s (.num (.int c))] = .ok (.s v) := by
+    have := hb
+    simp only [bodyOf, Option.some.injEq] at this
+    rw [← this]
+    simp only [rowsOf, h]
+    cases v <;> rfl
+  rw [appOf_body ext (idOf "VLOOKUP") fVLOOKUP body _ rfl rfl rfl rfl hb]
+  cases key <;> (try (exact absurd rfl (hkey _))) <;>
+  simp [wrapX, fVLOOKUP, bindArgs, itemOfV, pyOfS, validateAllX, validateParamX, validateParam, annotScalar?,
+    castScalar, castFromNative, Py.typed?, XR.ofR, XR.map, XR.bind, hbody, retCast, pyToS, toNumber, ofXR]
+
 /-! ### financial: NPV of literal cash flows -/
 
 def fNPV : Gen.Func := ⟨"NPV".toList, "financial".toList, true,
